@@ -7,6 +7,14 @@
 //verif:replace@C17 (*os.File).Write = Write
 //verif:replace@C17 (*os.File).Read = Read
 //verif:replace@C17 (*os.File).Close = Close
+//verif:replace@C18c os.OpenFile = OpenFile
+//verif:replace@C18c os.Open = Open
+//verif:replace@C18c os.Rename = Rename
+//verif:replace@C18c os.Remove = Remove
+//verif:replace@C18c (*os.File).WriteString = WriteString
+//verif:replace@C18c (*os.File).Write = Write
+//verif:replace@C18c (*os.File).Read = Read
+//verif:replace@C18c (*os.File).Close = Close
 
 // Package memfs: a small in-memory file system standing in for the os calls
 // of the code under test (harness support, overlay only).
